@@ -44,6 +44,24 @@ def cases(rng, tier):
             c2 = CG.codec_case(rng, cfg, thr, allsrc, [0] * len(allsrc), data)
             c2.tag = "all_source"
             cs.append(c2)
+    # repair-only receptions of small blocks (no padding where K is a table size): the solver's r >= 3 steps
+    cases.blocks = []
+    for _ in range(250 if tier == "quick" else 4000):
+        k = rng.choice([3, 4, 5, 6, 7, 8, 9, 10, 12, 18, 20, 26])
+        t = rng.choice([1, 2, 4, 16, 32])
+        esis = rng.shuffle(CG.block_esis(rng, k, rng.choice([0, 0, 1, 2]), 0.0))
+        data = CG.rand_data(rng, k * t)
+        cases.blocks.append((CG.sbd_case(rng, k, t, 1, 1, rng.choice([0, 1]), [esis], data), data))
+    # receptions made only of symbols of LT degree >= 3 / 4 / 6: every remaining row is heavy, so the first phase
+    # takes its r >= 3 and r >= 4 steps (column swaps of more than two ones), unreachable by ordinary receptions
+    for _ in range(150 if tier == "quick" else 3000):
+        k = rng.choice([10, 12, 18, 20, 26])
+        esis = CG.heavy_esis(rng, k, rng.choice([3, 4, 4, 6, 6]), rng.choice([0, 0, 1, 2]))
+        if esis is None:
+            continue
+        t = rng.choice([1, 2, 16, 32])
+        data = CG.rand_data(rng, k * t)
+        cases.blocks.append((CG.sbd_case(rng, k, t, 1, 1, rng.choice([0, 1]), [esis], data), data))
     return cs
 
 
@@ -51,6 +69,18 @@ def evaluate(cs, rep, tier):
     impl, model, dis = G.diff_impl_model(cs, PROFILES, "codec")
     both = G.all_profiles_impl(cs, PROFILES)
     counter = []
+    blocks = getattr(cases, "blocks", [])
+    if blocks:
+        bres = G.all_profiles_impl([c for c, _ in blocks], PROFILES)
+        for prof in PROFILES:
+            for (c, data), r in zip(blocks, bres[prof]):
+                t = r.split()
+                if t[0] != "1":
+                    counter.append({"input": c.impl_line()[:700], "expected": "None or the block", "observed": "panic / crash: " + r[:60], "profile": prof, "oracle": "C01 (repair-only reception)"})
+                    break
+                if t[1] == "1" and [int(x) for x in t[2:]] != data:
+                    counter.append({"input": c.impl_line()[:700], "expected": "exactly the block", "observed": "different bytes", "profile": prof, "oracle": "C01 (repair-only reception)"})
+                    break
     repaired = 0
     for idx, c in enumerate(cs):
         f = c.args[0]
@@ -78,7 +108,7 @@ def evaluate(cs, rep, tier):
             "stats": {"evaluations": len(cs) * 4, "distinct_nontrivial": repaired,
                       "samples": [cs[5].impl_line()[:240] + " ... -> " + impl[5][:60]],
                       "steps_compared": sum(c.args[6] for c in cs),
-                      "input_distribution": {"histories": len(cs), "all_source": sum(1 for c in cs if c.tag == "all_source"), "Z>1": sum(1 for c in cs if c.args[2] > 1),
+                      "input_distribution": {"repair_only_block_receptions": len(blocks), "histories": len(cs), "all_source": sum(1 for c in cs if c.tag == "all_source"), "Z>1": sum(1 for c in cs if c.args[2] > 1),
                                              "N>1": sum(1 for c in cs if c.args[3] > 1), "padded": sum(1 for c in cs if c.args[0] % c.args[1]), "decoded": repaired}}}
 
 
